@@ -101,7 +101,7 @@ let () = each_line (fun line ->
              | Ok (ok, n) ->
                let n = int_of_z n in
                let c = if ok then n else -n in
-               if c <= 0 then Printf.sprintf "C=%d N=-1 R=-1 V=- A=-" c
+               if c < 0 || not ok then Printf.sprintf "C=%d N=-1 R=-1 V=- A=-" c
                else (match scan_message dec2f dec2d text (z_of_int c) with
                    | Ok ((a, vs), rest) ->
                      Printf.sprintf "C=%d N=%d R=%d V=%s A=%s" c (List.length vs)
